@@ -1,19 +1,69 @@
 """C03 — wait_for_acknowledgments is sound and eventually completes."""
 from props._rel import *  # noqa
-from props import _rel
+from props import _rel, _multi
 
 PID = "C03"
 PROPS_FILE = "Props/C03.v"
 PREFIX = "C03"
+CORR = "Proto.MultiCorr"
+CORR_MODULES = ["Proto.RelCorr", "Proto.MultiCorr"]
+CASE_TYPE = "C03_case"
 KNOWN = {}
-RULE = ("a case is one scenario on the simulated real stack (one RELIABLE writer, one RELIABLE reader, KEEP_ALL / "
-        "KEEP_LAST 1-3, 1-3 instances, fragment size 64/128/1344): writes interleaved with network faults on the "
-        "queued user datagrams, wait_for_acknowledgments calls that are either answered at once or stay parked "
-        "(each followed by a take that shows what the reader has), in 20 % of the scenarios delete_datareader on "
-        "the peer or deletion of the peer participant, then healing rounds, a poll of the parked callers, a fresh "
-        "call and a take; distinct = distinct scenario line; non-trivial = at least two writes, one fault event "
-        "and a take that returned something")
-gen = _rel.gen_for("C03")
+TRUSTED = _rel.TRUSTED + ["theories/Proto/MultiModel.v: the product of single-pair machines (poke order = writers in creation "
+                          "order, reader proxies in match order; one datagram queue; wait list per writer tested over all "
+                          "its reader proxies; reader cache filled in arrival order) is a hand model of several endpoints"]
+ASSUMPTIONS = ["several endpoints: every reader lives in a participant of its own (one locator per reader), writers are "
+               "RELIABLE KEEP_ALL; the independence of the (writer, reader) pairs in the code is checked by the "
+               "correspondence run, the projection onto single pairs is proved for the model"] + _rel.ASSUMPTIONS[1:]
+RULE = ("a case is one scenario on the simulated real stack. Single pair (75 %): one RELIABLE writer, one RELIABLE "
+        "reader, KEEP_ALL / KEEP_LAST 1-3, 1-3 instances, fragment size 64/128/1344: writes interleaved with network "
+        "faults on the queued user datagrams, wait_for_acknowledgments calls that are either answered at once or stay "
+        "parked (each followed by a take that shows what the reader has), in 20 % of the scenarios delete_datareader "
+        "on the peer or deletion of the peer participant, then healing rounds, a poll of the parked callers, a fresh "
+        "call and a take. Several endpoints (25 %): one KEEP_ALL writer with 2-3 RELIABLE readers in participants of "
+        "their own, or two writers of one publisher with 1-2 readers (fragmented samples included): per-reader loss or "
+        "hold-back of the traffic, wait_for_acknowledgments issued while the last sample is unacknowledged, the "
+        "ACKNACK of one reader delivered while another reader lags, every call and every poll followed by a take on "
+        "EVERY reader, late joiners, at least three healing rounds, poll, fresh calls, takes; distinct = distinct "
+        "scenario line; non-trivial = at least two writes, one fault/delivery event and a take that returned something")
+
+
+def is_multi(c):
+    return c[0] == "M"
+
+
+def gen(r, tier):
+    n = {"quick": 140, "search": 600, "thorough": 5000}[tier]
+    return [_multi.gen_case(r) if r.random() < 0.25 else _rel.gen_case(r, "C03") for _ in range(n)]
+
+
+def case_line(c):
+    return _multi.case_line(c) if is_multi(c) else _rel.case_line(c)
+
+
+def parse_line(line):
+    return _multi.parse_line(line) if _multi.is_multi_line(line) else _rel.parse_line(line)
+
+
+def case_term(c, out):
+    if is_multi(c):
+        return _multi.case_term(c, out)
+    t = _rel.case_term(c, out)
+    return None if t is None else "C3S (%s)" % t
+
+
+def nontrivial(c, out):
+    return _multi.nontrivial(c, out) if is_multi(c) else _rel.nontrivial(c, out)
+
+
+def distribution(cases, outs):
+    single = [(c, o) for c, o in zip(cases, outs) if not is_multi(c)]
+    d = _rel.distribution([c for c, _ in single], [o for _, o in single])
+    for c in cases:
+        if is_multi(c):
+            k = _multi.dist_key(c)
+            d[k] = d.get(k, 0) + 1
+    return d
 
 
 def corpus():
@@ -30,6 +80,24 @@ def corpus():
         # a parked caller is answered by the healing round, never before delivery
         parse_line(PRE % (64, 1, 0, 0) + " ; R 0 1 rel=1 dur=0 ; netm ; w 0 1 10 11 ; w 0 2 10 22 ; w 0 1 10 33 ; dr 0 ; "
                    "dl 1 ; du 0 ; wa 0 ; t 0 0 ; adv 250000000 ; pu ; adv 250000000 ; pu ; wp ; t 0 0 ; wa 0 ; t 0 0 ; q"),
+        # several readers: the caller is parked while the sample is unacknowledged; reader 0's DATA is lost, reader 1
+        # receives and acknowledges: the caller must stay parked (is_change_acknowledged ranges over ALL reader
+        # proxies) until reader 0 has the sample too
+        parse_line(" ; ".join(_multi.pre(1344, 0, 1, 2)) + " ; R 0 1 rel=1 dur=0 ; netm ; R 1 2 rel=1 dur=0 ; netm ; "
+                   "w 0 1 10 1 ; q ; wa 0 ; t 0 0 ; t 1 0 ; dr 0 ; dl 0 ; q ; dl 0 ; wp ; t 0 0 ; t 1 0 ; q ; "
+                   "adv 250000000 ; pu ; adv 250000000 ; pu ; adv 250000000 ; pu ; wp ; t 0 0 ; t 1 0 ; wa 0 ; t 0 0 ; t 1 0 ; q"),
+        # three readers, one late TRANSIENT_LOCAL joiner that lags on the history while the others acknowledge
+        parse_line(" ; ".join(_multi.pre(1344, 1, 1, 3)) + " ; R 0 1 rel=1 dur=0 ; netm ; R 1 2 rel=1 dur=1 ; netm ; "
+                   "w 0 1 10 1 ; w 0 2 10 2 ; pu ; R 2 3 rel=1 dur=1 ; netm ; q ; w 0 1 10 3 ; q ; dr 0 ; dr 0 ; wa 0 ; "
+                   "t 0 0 ; t 1 0 ; t 2 0 ; dl 0 ; dl 0 ; dl 0 ; dl 0 ; wp ; t 0 0 ; t 1 0 ; t 2 0 ; q ; "
+                   "adv 250000000 ; pu ; adv 250000000 ; pu ; adv 250000000 ; pu ; wp ; t 0 0 ; t 1 0 ; t 2 0 ; wa 0 ; "
+                   "t 0 0 ; t 1 0 ; t 2 0 ; q"),
+        # two writers of one publisher, one reader: a NACK_FRAG for writer 0's fragmented sample must not be answered
+        # by writer 1 (regression for C03-nackfrag-writer-id: writer 1 announced a GAP for its own next sequence
+        # number, its next sample was never delivered and yet acknowledged)
+        parse_line(" ; ".join(_multi.pre(64, 0, 2, 1)) + " ; R 0 1 rel=1 dur=0 ; netm ; w 0 1 117 1 ; q ; dr 1 ; "
+                   "adv 250000000 ; pu ; q ; adv 250000000 ; pu ; t 0 0 ; w 1 1 4 2 ; q ; adv 250000000 ; pu ; "
+                   "adv 250000000 ; pu ; adv 250000000 ; pu ; wp ; t 0 0 ; wa 0 ; wa 1 ; t 0 0 ; q"),
     ]
 
 
@@ -47,14 +115,23 @@ MANIFEST = {
              "test of 91937ff; former finding C03-gap-skip-ack). NO STALE WAITER, unbounded, every schedule: whenever the "
              "test holds nobody is parked, in particular once the reader proxy is gone (delete_datareader on the peer, "
              "deletion of its participant) every caller has been answered (repair 66b3297 of the former finding "
-             "C03-stale-waiter). COMPLETION while the reader stays matched, proved part (ANY history QoS incl. KEEP_LAST histories with holes, unfragmented, no explicit removal, no deletion, at most 256 samples, "
+             "C03-stale-waiter). SEVERAL ENDPOINTS: a product model (W writers of one publisher x R readers in participants of "
+             "their own; every (writer, reader) pair is a single-pair machine, shared: one datagram queue, every "
+             "writer's wait list whose test ranges over ALL its reader proxies, every reader's sample cache) with a "
+             "projection theorem - the state of every pair in any reachable product state is a reachable state of the "
+             "single-pair model - from which soundness for any number of matched readers follows: whenever the test of "
+             "a writer succeeds, and whenever a parked caller is answered while ONE reader's ACKNACK is processed, EVERY "
+             "matched reader has been given everything relevant. COMPLETION while the reader stays matched, proved part (ANY history QoS incl. KEEP_LAST histories with holes, unfragmented, no explicit removal, no deletion, at most 256 samples, "
              "at least one relevant sample): after healing rounds that drain the network plus one more, the "
              "acknowledgement test holds and no caller is parked (k + 2 heartbeat periods). The model is tied to the code by differential "
              "correspondence on a deterministic whole-stack simulation; the oracle (a success is followed by a take "
              "that contains every retained relevant sample; after healing no caller is parked) judges the real "
              "observations."),
     "note": ("Trusted: Coq kernel, hand model RelModel.v (correspondence-checked on every run), simulation harness, "
-             "generator. Axioms: none. Former findings C03-gap-skip-ack, C03-stale-waiter are repaired (91937ff, 66b3297); their "
+             "generator. Axioms: none. That the pairs of the product are independent in the CODE (ACKNACK / NACK_FRAG filtered "
+             "by writer id, submessages looked up by writer guid) is checked by the correspondence run on the "
+             "several-endpoint scenarios (it found C03-nackfrag-writer-id, repaired by 1001a3e). "
+             "Former findings C03-gap-skip-ack, C03-stale-waiter are repaired (91937ff, 66b3297); their "
              "schedules are in the corpus. Bounded time of completion is "
              "expressed in healing rounds (one heartbeat period each). One writer/reader pair."),
     "technique": "Coq proof (invariants over all schedules, healing invariant) + differential correspondence on a deterministic whole-stack simulation",
